@@ -88,7 +88,7 @@ def main():
         "setup_cmd": "./check build",
         "hooks": {
             "guard": "verif",
-            "enable": "go test -c -tags verif -overlay <scratch>/overlay.json (built by ./check; the overlay rewrites map ranges of /repo/pkg into verifhook.Keys iterations and maps in the virtual package tkestack.io/kvass/pkg/verifhook from /verif/sim/hook; /repo itself is not edited)",
+            "enable": "go test -c -tags verif -overlay <scratch>/overlay.json (built by ./check; the overlay rewrites the map ranges of /repo/pkg into verifhook.Keys iterations, inserts verifhook.Yield before every Lock() of pkg/discovery and pkg/explore, and maps in the virtual package tkestack.io/kvass/pkg/verifhook from /verif/sim/hook; /repo itself is not edited: no hook commit exists)",
             "baseline_off_cmd": "cd /repo && go test -mod=mod -vet=off -count=1 ./...",
             "source_commits": [],
             "add_only": True,
